@@ -69,6 +69,9 @@ var c04alphabet = []string{
 	`(str (list 1 2 (array 3)))`,
 	`(assert (== 1 1))`,
 	`(mdef m1 m2 (list 1 2))`,
+	`(a2 b2 = 1 2)`,
+	`(begin (def v3 [1 2 3]) (set (arrayidx v3 [1]) 5) v3)`,
+	`{v4 := [1 2 3]; v4[0] = 9; v4}`,
 	`(for outer: [(def i 0) (< i 2) (set i (+ i 1))] (for [(def j 0) (< j 2) (set j (+ j 1))] (cond (== j 1) (continue outer:) nil)))`,
 }
 
@@ -205,7 +208,7 @@ func c04batch(c *engine.Ctx, progs []string) {
 	tr.Run(layout(c03prelude(), 0))
 	tr.Run(layout(c09prelude(), 0))
 	for _, p := range progs {
-		zygo.VerifSetStepBudget(300000)
+		zygo.VerifSetStepBudget(60000)
 		r := tr.Run(p)
 		d := tr.Env.VerifDepths()
 		c.Count("batch_programs", 1)
@@ -230,7 +233,7 @@ func init() {
 	engine.Register(&engine.Check{
 		ID:    "C04",
 		Level: "model_checking",
-		Rule: "explicit-state BFS over histories of evaluations on one long-lived interpreter (StandardSetup): alphabet of 43 forms, one per family of the full surface language (core forms, struct/var/func/method/interface, defmac and macro calls, macexpand, range, infix blocks, package, tail recursion, lazy forcing, eval, failing forms, unparsable text, empty input); " +
+		Rule: "explicit-state BFS over histories of evaluations on one long-lived interpreter (StandardSetup): alphabet of 46 forms, one per family of the full surface language (core forms, struct/var/func/method/interface, defmac and macro calls, macexpand, range, infix blocks, package, tail recursion, lazy forcing, eval, failing forms, unparsable text, empty input); " +
 			"state key = four stack depths + sorted printed user globals; in every state: stacks at rest after a success, empty input gives nil, all forms in one call == one at a time; depth 3 (thorough 4). " +
 			"Plus the C02/C03/C09/C16 program grammars evaluated in batches of 40 on one interpreter with the stacks checked after each success; distinct_nontrivial = distinct (value, state) outcomes",
 		Assumptions: []string{"depths are read through the verif accessor VerifDepths", "after a failed evaluation the interpreter is cleared as the REPL does (what a failure leaves behind is C05)"},
@@ -257,7 +260,11 @@ func init() {
 				batch = nil
 			}
 			add := func(t *T) bool {
-				batch = append(batch, gen.Renumber(t).Text())
+				txt := gen.Renumber(t).Text()
+				if strings.Count(txt, "(defn k ") > 1 {
+					return true // re-binding the running function's own name: recorded finding of C02, can recurse without bound
+				}
+				batch = append(batch, txt)
 				if len(batch) == 40 {
 					flush()
 				}
